@@ -50,7 +50,8 @@ def base_scenario(r, job_times: List[float]) -> Dict[str, Any]:
                 if r.random() < 0.2:
                     sub["schedule"].append({"on": n, "job": _job(r, rel=True)})
             subs.append(sub)
-    jobs = [{"t": t, "steps": r.choice([0, 0, 1, 2]), "fail": r.random() < 0.12, "schedule": _children(r)}
+    jobs = [{"t": t, "steps": r.choice([0, 0, 1, 2]), "fail": r.random() < 0.12, "schedule": _children(r),
+             "plain": r.random() < 0.2, "sync_fail": r.random() < 0.4}
             for t in job_times]
     return {"max_concurrent": r.choice([1, 2, 3, 50]), "sources": sources, "derived": 0, "subscriptions": subs,
             "jobs": jobs, "stop_on_handler_exceptions": False,
